@@ -321,3 +321,10 @@ def add_type_modules_contract(repo: Repo):
     if n < 8:
         out.append((None, f"only {n} paths of add_type_modules", why))
     return out
+
+
+def forward_ref_contract(repo: Repo):
+    why = ("a forward reference is evaluated in the namespace of the module that wrote it (falling back to the generated code's globals), with the builder's own attributes as "
+           "locals -- never with the generated code's namespace as locals, where the generator's own imports (Dialect, Field, datetime ...) would shadow the user's names")
+    exp = [("evaluate_forward_ref(typ, get_forward_ref_referencing_globals(typ, owner, B.globals), B.__dict__)", {}, [])]
+    return outcome_contract(repo, "CodeBuilder.evaluate_forward_ref", exp, [Sym("typ"), Sym("owner")], why=why)
